@@ -1,4 +1,5 @@
 import U3.Lemmas.PoolConcInv
+import U3.Lemmas.PoolConcClose
 /-!
 # C02 — concurrent requests never share a connection, exceed maxsize, or deadlock
 
@@ -120,6 +121,18 @@ example : NoClose [[.req 0 .ok true, .release], [.req 1 .ok false]] ∧
   simp at hp
   rcases hp with rfl | rfl <;> simp
 
+/-- non-vacuity with a connection pooled closed: after a `Connection: close` reply the queue of a
+`block=True` pool of size 2 holds the closed connection object and a placeholder, thread 1 is
+mid-request on a second object: 2 queued + 1 leased would be 3 — the count is 1 + 1 -/
+example : NoClose [[.req 0 .okClose false, .req 0 .ok false], [.req 0 .ok false]] ∧
+    (let s := run ⟨2, true, false⟩ [[.req 0 .okClose false, .req 0 .ok false], [.req 0 .ok false]]
+       [0, 0, 0, 0, 0, 1, 1, 1, 1, 0, 0, 0]
+     s.sh.queue = [some 0] ∧ s.sh.openC = [1] ∧ leases s = 1) := by
+  refine ⟨?_, by decide⟩
+  intro p hp
+  simp at hp
+  rcases hp with rfl | rfl <;> simp
+
 /-- **Progress (no deadlock, no lost wake-up).**  Threads that never call `close` and release
 every streaming response before their next request and before they end (`LeaseDiscipline`), on a
 pool with `maxsize ≥ 1` (any `block` / `pool_timeout`): under every schedule, a configuration in
@@ -202,6 +215,80 @@ theorem C02_progress_needs_release_witness :
     stuck s = true ∧ allDone s = false ∧ ∀ σ, runFrom s σ = s := by
   refine ⟨by decide, by decide, ?_⟩
   exact runFrom_of_stuck (by decide)
+
+/-! ## Connections pooled closed (`Connection: close` replies) -/
+
+/-- **A dead pooled connection costs one item.**  In ANY configuration, a thread whose `get()` finds
+a connection object `c` on top of the queue — open, or closed by a `Connection: close` reply
+(`_get_conn`'s dropped-connection branch) — takes exactly that one item: the rest of the queue is
+untouched whatever lies below, no socket is opened or closed and no connection object is created
+by the checkout; the thread then writes its request on that SAME object, which is open afterwards
+(reconnected if it was closed), still with nothing else taken from the queue. -/
+theorem C02_closed_connection_checkout (s : State) (t : Nat) (th : Thread) (c : ConnId)
+    (q : List (Option ConnId)) (f : Nat) (l : Outcome) (st : Bool)
+    (hget : s.threads[t]? = some th) (hpc : th.pc = .getQ f l st) (hq : s.sh.queue = some c :: q) :
+    ∃ s', step s t = some s' ∧ s'.sh.queue = q ∧ s'.sh.openC = s.sh.openC ∧
+      s'.sh.nextId = s.sh.nextId ∧ s'.threads[t]? = some { th with pc := .send c f l st } ∧
+      ∀ s'', step s' t = some s'' →
+        c ∈ s''.sh.openC ∧ s''.sh.queue = q ∧ s''.sh.nextId = s.sh.nextId := by
+  have hts := tstep_getQ_conn (cfg := s.cfg) (tid := t) hpc hq
+  refine ⟨{ s with sh := { s.sh with queue := q },
+                   threads := s.threads.set t { th with pc := .send c f l st } }, ?_, rfl, rfl, rfl,
+    by simp [getElem?_set_of_get hget], ?_⟩
+  · simp [step, hget, hts]
+  · intro s'' h2
+    obtain ⟨th1, sh2, th2, hget1, hts2, rfl⟩ := step_some h2
+    have hth1 : th1 = { th with pc := .send c f l st } := by
+      simpa [getElem?_set_of_get hget] using hget1.symm
+    subst hth1
+    obtain ⟨h3, h4, h5, -⟩ := tstep_send_opens (c := c) (f := f) (l := l) (st := st) rfl hts2
+    exact ⟨h3, h4, h5⟩
+
+/-- non-vacuity: after a request answered with `Connection: close` the pool (`maxsize = 2`) holds
+the connection object 0 with its socket closed, on top of a placeholder; the thread's next request
+is at `get()` -/
+example :
+    let s := run ⟨2, true, false⟩ [[.req 0 .okClose false, .req 0 .ok false]] (List.replicate 10 0)
+    s.sh.queue = [some 0, none] ∧ s.sh.openC = [] ∧
+      (s.threads.map (·.pc)) = [.getQ 0 .ok false] := by decide
+
+/-- **A connection pooled closed is reused, not replaced.**  One thread, a request answered with
+`Connection: close` followed by a keep-alive one (`block=True`, `maxsize = 2`): after the first
+request the queue holds the connection object with no socket open; the second request checks out
+that same object and reconnects it — one connection object in all (`nextId = 1`), never more than
+one socket, and both slots are back in the queue at the end. -/
+theorem C02_pooled_closed_connection_reused :
+    let s1 := run ⟨2, true, false⟩ [[.req 0 .okClose false, .req 0 .ok false]] (List.replicate 8 0)
+    let s2 := runFrom s1 (List.replicate 8 0)
+    s1.sh.queue = [some 0, none] ∧ s1.sh.openC = [] ∧
+    allDone s2 = true ∧ s2.sh.queue = [some 0, none] ∧ s2.sh.openC = [0] ∧ s2.sh.nextId = 1 ∧
+      s2.sh.maxOpen = 1 ∧ results s2 = [[(.req 0 .okClose false, .ok), (.req 0 .ok false, .ok)]] := by
+  decide
+
+/-- **`EmptyPoolError` only when the pool is exhausted.**  Threads that follow the lease discipline
+(each holds at most one slot at a time, nobody calls `close`): under every schedule, a request can
+end with `EmptyPoolError` only if there are more threads than slots — with at most `maxsize`
+threads a `block=True` pool is never found empty, because no slot is ever lost. -/
+theorem C02_empty_only_when_exhausted (cfg : Cfg) (progs : List (List Op)) (σ : List Nat)
+    (hd : LeaseDiscipline progs) :
+    ∀ rs ∈ results (run cfg progs σ), ∀ p ∈ rs, p.2 = .emptyPool → cfg.maxsize < progs.length := by
+  intro rs hrs p hp hres
+  simp only [results, List.mem_map] at hrs
+  obtain ⟨th, hth, rfl⟩ := hrs
+  obtain ⟨t, g⟩ := List.getElem?_of_mem hth
+  have := invE_run cfg hd σ t th g p hp hres
+  rw [threads_length_run] at this
+  simpa [run, init] using this
+
+/-- non-vacuity: two disciplined threads (one served with `Connection: close`) on a pool of size 1
+with a `pool_timeout`: the second does get `EmptyPoolError` while the first holds the only slot -/
+example : LeaseDiscipline [[.req 0 .okClose true, .release], [.req 0 .ok false]] ∧
+    results (run ⟨1, true, true⟩ [[.req 0 .okClose true, .release], [.req 0 .ok false]]
+      [0, 0, 0, 1, 1, 1]) = [[], [(.req 0 .ok false, .emptyPool)]] := by
+  refine ⟨?_, by decide⟩
+  intro p hp
+  simp at hp
+  rcases hp with rfl | rfl <;> decide
 
 /-! ## Concurrent `close()` -/
 
@@ -304,13 +391,13 @@ example : enabled (run ⟨1, true, true⟩ [[.close]] [0, 0, 0, 0, 0]) 0 = false
 request and only if some thread calls `close()`; `EmptyPoolError` only for a request on a
 `block=True` pool with a `pool_timeout`; `MaxRetryError` (`failed`) only for a request whose last
 attempt is scripted to fail; and a request that ends `ok` is one whose last attempt is scripted to
-succeed. -/
+succeed (with a keep-alive reply, `ok`, or with `Connection: close`, `okClose`). -/
 theorem C02_results_as_scripted (cfg : Cfg) (progs : List (List Op)) (σ : List Nat) :
     ∀ rs ∈ results (run cfg progs σ), ∀ p ∈ rs,
       (p.2 = .closedPool → 1 ≤ closeCount progs ∧ ∃ f l st, p.1 = .req f l st) ∧
       (p.2 = .emptyPool → cfg.block = true ∧ cfg.timeout = true ∧ ∃ f l st, p.1 = .req f l st) ∧
       (p.2 = .failed → ∃ f st, p.1 = .req f .fail st) ∧
-      (p.2 = .ok → ∀ f l st, p.1 = .req f l st → l = .ok) := by
+      (p.2 = .ok → ∀ f l st, p.1 = .req f l st → l = .ok ∨ l = .okClose) := by
   intro rs hrs p hp
   have hi := invAll_run cfg progs σ
   simp only [results, List.mem_map] at hrs
@@ -324,7 +411,10 @@ theorem C02_results_as_scripted (cfg : Cfg) (progs : List (List Op)) (σ : List 
   rw [hn] at h1
   have hk : ∀ op : Op, op.kind = 0 → ∃ f l st, op = .req f l st := by
     intro op h; cases op <;> simp at h; exact ⟨_, _, _, rfl⟩
-  exact ⟨fun h => ⟨(h1 h).1, hk _ (h1 h).2⟩, fun h => ⟨(h2 h).1, (h2 h).2.1, hk _ (h2 h).2.2⟩, h3, h4⟩
+  refine ⟨fun h => ⟨(h1 h).1, hk _ (h1 h).2⟩, fun h => ⟨(h2 h).1, (h2 h).2.1, hk _ (h2 h).2.2⟩, h3, ?_⟩
+  intro h f l st hop
+  have := h4 h f l st hop
+  cases l <;> simp at this ⊢
 
 /-- **Without `close()` everything ends as scripted.**  No `close` op in the programs: under every
 schedule a finished request ended `ok` (last attempt scripted `ok`), with `MaxRetryError` (last
@@ -333,7 +423,7 @@ attempt scripted `fail`) or — `block=True` with `pool_timeout` only — with `
 theorem C02_no_close_results (cfg : Cfg) (progs : List (List Op)) (σ : List Nat)
     (h0 : closeCount progs = 0) :
     ∀ rs ∈ results (run cfg progs σ), ∀ p ∈ rs,
-      (p.2 = .ok ∧ ∀ f l st, p.1 = .req f l st → l = .ok) ∨
+      (p.2 = .ok ∧ ∀ f l st, p.1 = .req f l st → l = .ok ∨ l = .okClose) ∨
       (p.2 = .failed ∧ ∃ f st, p.1 = .req f .fail st) ∨
       (p.2 = .emptyPool ∧ cfg.block = true ∧ cfg.timeout = true ∧ ∃ f l st, p.1 = .req f l st) := by
   intro rs hrs p hp
